@@ -79,18 +79,53 @@ def main(tier: str) -> int:
                 nonfail += 1
                 if len(samples) < 6:
                     samples.append({"family": fam, "value": hex(v), "unified": repr(out)})
-    # second call on the same inputs (the function must be a function: no hidden state)
-    for fam, v in [("ember", 0), ("ezsp", 0), ("ember", 0x72), ("ember", 0x07)]:
-        a, _ = one(fam, v)
-        b, _ = one(fam, v)
-        if a != b:
-            rep.add_violation(f"C18|{fam}|{v:#x}|unstable", f"two calls disagree: {a!r} {b!r}", {"world": "c18", "family": fam, "value": v})
+    # The conversion must be a function of its argument alone (no hidden state, e.g. a cache keyed on the bare number):
+    # the whole domain is converted again in every order of the three families, each in a *fresh interpreter*, and
+    # every answer must equal the first pass.
+    import itertools
+    import json as _json
+    import subprocess
+    import sys as _sys
+
+    first = {}
+    for fam, v in cases():
+        out, err = one(fam, v)
+        first[(fam, v)] = None if out is None else int(out)
+    code = (
+        "import sys, json; sys.path[:0] = %r\n"
+        "from mc.checks import c18\n"
+        "order = json.loads(sys.argv[1]); res = {}\n"
+        "cs = list(c18.cases())\n"
+        "for fam in order:\n"
+        "    for f, v in cs:\n"
+        "        if f == fam:\n"
+        "            out, err = c18.one(f, v); res[f + ':' + str(v)] = [None if out is None else int(out), err]\n"
+        "print(json.dumps(res))\n"
+    ) % ([p for p in _sys.path if p],)
+    orders = list(itertools.permutations(["ember", "ezsp", "sl"]))
+    procs = [subprocess.Popen([_sys.executable, "-c", code, _json.dumps(list(o))], stdout=subprocess.PIPE, stderr=subprocess.DEVNULL, text=True) for o in orders]
+    for o, pr in zip(orders, procs):
+        txt, _ = pr.communicate()
+        try:
+            res = _json.loads(txt.strip().splitlines()[-1])
+        except Exception:
+            raise explore.InternalError(f"C18 order pass {o} produced no result")
+        n += len(res)
+        for key, (val, err) in res.items():
+            fam, v = key.split(":")
+            v = int(v)
+            if err and (fam, v) in first and first[(fam, v)] is not None:
+                rep.add_violation(f"C18|{fam}|order-dependent", f"families converted in order {o}: {err}", {"world": "c18", "family": fam, "value": v, "order": list(o)})
+            elif val != first.get((fam, v)):
+                rep.add_violation(f"C18|{fam}|order-dependent", f"families converted in order {o}: {fam} {v:#x} -> {val}, first pass gave {first.get((fam, v))}",
+                                  {"world": "c18", "family": fam, "value": v, "order": list(o)})
     if nonfail < 9:
         raise explore.InternalError(f"C18 vacuous: only {nonfail} legacy codes map to a specific unified status")
     rep.coverage = {
         "evaluations": n,
         "distinct_nontrivial": nonfail,
-        "rule": "every value 0..255 of EmberStatus and of EzspStatus, every defined sl_Status member, and undefined 32-bit values (all powers of two and 2^k-1); "
+        "rule": "every value 0..255 of EmberStatus and of EzspStatus, every defined sl_Status member, and undefined 32-bit values (all powers of two and 2^k-1), "
+                "converted once in this process and again in all 6 orders of the three families, each order in a fresh interpreter (answers must not depend on history); "
                 "non-trivial = a legacy code that maps to a unified status other than OK / generic FAIL",
         "exhaustive": True,
         "distinct_outputs": len(outs),
@@ -101,6 +136,11 @@ def main(tier: str) -> int:
 
 
 def replay(data) -> int:
+    if data.get("order"):
+        for fam in data["order"]:
+            for f, v in cases():
+                if f == fam:
+                    one(f, v)
     out, err = one(data["family"], data["value"])
     print(data["family"], hex(data["value"]), "->", repr(out), err)
     return 1 if err else 0
